@@ -109,6 +109,10 @@ def gen_cases(tier, seed):
     add("udpe2e", [4] + [r.randint(1, 1400) for _ in range(30)], "e2e-sequence", True, model=False)
     # the target is not up yet when the first datagram is forwarded (the kernel reports the closed port back to the
     # server's socket); once it is up, every datagram must be delivered (seed C15-3)
+    # the records returned by the server are a byte stream: a record that arrives in two data frames with a long pause
+    # between them (a slow or lossy path under the tunnel) is still one datagram, and the next ones stay aligned (seed C15-5)
+    for gap, cut in ([(1600, "h"), (1200, 1)] if quick else [(1600, "h"), (1200, 1), (2500, 2), (700, "h"), (3200, 3)]):
+        add("udpsplit", [gap, cut, 300, 1200, 700], "e2e-record-split-with-pause", True, model=False)
     add("udpe2e", ["4L", 5, 300, 1400, 9, 2000], "e2e-target-comes-up-late", True, model=False)
     add("udpe2e", ["6L", 7, 64, 1200], "e2e-target-comes-up-late", True, model=False)
     for _ in range(2 if quick else 40):
@@ -117,6 +121,10 @@ def gen_cases(tier, seed):
 
 
 def oracle(c, ir):
+    if c.drv == "udpsplit":
+        exp = " ".join("%s:t" % n for n in c.args[2:])
+        return None if ir.strip() == exp else ("records returned in two data frames %s ms apart (first part: %s bytes): the application got %s, expected %s: "
+                                               "a datagram was lost or the record stream lost alignment" % (c.args[0], c.args[1], ir[:200], exp))
     if c.drv == "udpe2e":
         sizes = c.args[1:]
         exp = " ".join("%s:t:t" % n for n in sizes) + " TARGETN=%d" % len(sizes)
